@@ -162,7 +162,13 @@ func TestC18(t *testing.T) {
 		files := p.Files()
 		input := pg.SetupPath
 		// layout of the input path: default name, another name with several dots, a directory with dots
-		switch rapid.IntRange(0, 3).Draw(rt, "inputName") {
+		switch rapid.IntRange(0, 5).Draw(rt, "inputName") {
+		case 4, 5:
+			// a stem that ends in a character of the extension (".", "g", "o")
+			name := rapid.SampledFrom([]string{"home/dto.go", "home/catalog.go", "home/x..go", "home/go.go", "home/setup.gen.go.go"}).Draw(rt, "oddStem")
+			setup, _ := files.Get(pg.SetupPath)
+			files = removeFile(files, pg.SetupPath).Set(name, setup)
+			input = name
 		case 1:
 			setup, _ := files.Get(pg.SetupPath)
 			files = removeFile(files, pg.SetupPath).Set("home/conv.setup.v2.go", setup)
@@ -179,8 +185,15 @@ func TestC18(t *testing.T) {
 			files = moved
 			input = "pkgs.v1.2/home/setup.go"
 		}
-		base, ok, _ := plainBaseline(env, files, input)
+		base, ok, br := plainBaseline(env, files, input)
 		if !ok {
+			if br != nil && br.Res.Exit == 0 {
+				// exit 0 but nothing at the documented default path
+				m := c18Meta{Scenario: cliScenario{Input: input, Spelling: "rel-root", Pre: "absent"}}
+				mb, _ := json.Marshal(m)
+				rec.Eval()
+				rec.Report(rt, hx.Failf("C18|output-missing|no-flags|rel-root", "plain run of %s exits 0 but there is no output at %s; tree changes: %v", input, insertGen(input), diffList(br)), &hx.Case{Kind: "cli", Meta: mb, Files: files})
+			}
 			rec.Class("input-not-accepted")
 			return
 		}
@@ -209,7 +222,7 @@ func TestC18(t *testing.T) {
 			}
 		}
 		// further -out targets
-		for _, ok := range []string{"abs", "nested-dir"} {
+		for _, ok := range []string{"abs", "nested-dir", "cwd", "cwd"} {
 			for _, dry := range []bool{false, true} {
 				sc := cliScenario{Input: input, Spelling: rapid.SampledFrom(c18Spellings).Draw(rt, "sp"), OutKind: ok, Dry: dry, Print: rapid.Bool().Draw(rt, "print"), Log: rapid.Bool().Draw(rt, "log"), Pre: "absent"}
 				m := c18Meta{Scenario: sc, Baseline: base}
